@@ -23,4 +23,6 @@ PY
 fi
 echo "seeded=$ID property=$PROP exit=$RC"
 rm -rf "$W"
+# regenerated tables were written from the mutated copy: restore the committed (clean-tree) versions
+git -C "$HERE" checkout -- lean/LitexModel/Generated 2>/dev/null
 exit $RC
